@@ -15,13 +15,19 @@ REG = dict(
 TEXT = dict(
     level="Universal Lean theorems: the binomial tail polynomial is the Beta(a,b) distribution function (derivative telescopes to "
           "the normalised density; FTC); equal-tailed duality (mass, equal tails, x in I(c) <-> cov(x)<=c, cov(end)=c, "
-          "nestedness); unimodality of the density; weak-duality level-set bound => soundness of the exact optimality "
+          "nestedness); (strict) unimodality of the density; the highest-density coverage function hdcov(a,b)(x) := Beta(a,b)-mass of the "
+          "level set of the density through x, for integers a,b >= 1 not both 1: the level set is [x, partner] with the partner the "
+          "sup/inf of the level set across the mode (for a,b >= 2 the unique equal-density point), it is the shortest interval of its "
+          "mass, and hdcov is strictly decreasing on [0,mode], strictly increasing on [mode,1], 0 at the mode, 1 at an end point where "
+          "the density vanishes, G resp. 1-G for a=1 resp. b=1, measurable; the exact bracket of beta.hdcov contains hdcov(x) for every "
+          "rational x off the mode; weak-duality level-set bound => soundness of the exact optimality "
           "certificate (no interval of at least the same mass is shorter by more than 1e-9, for EVERY u,v) and the classical "
           "'equal end densities => shortest'; bracket/width invariants of both bisection loops for arbitrary decisions. "
           "Every run checks the implementation's outputs exactly in Q: masses and tails to 1e-9, order, optimality "
           "certificates, coverage functions against exact values/brackets to 2e-6, inverse relation, monotonicity, broadcasting.",
     note="Proved: what an accepted exact check implies over the reals (all continuum quantifiers closed by theorems). Compared, "
          "not proved: the values returned by scipy's beta.ppf/cdf and by the library's float bisections (checked per instance); "
-         "the coverage of the smallest HDI containing x is bracketed by an exact bisection in the model (hd_level_set says why "
-         "that is the right quantity). Finding on the unchanged tree: the HDI is not shortest within 1e-9 when 1-coverage<=1e-6.",
+         "the coverage of the smallest HDI containing x is a defined real function (hdcov, OpdaProofs/BetaHdV.lean) with proved V shape; "
+         "the exact bisection in the model provably brackets it (hd_coverage_bracket_contains_hdcov) and the library's float value is "
+         "compared with that bracket. Finding on the unchanged tree: the HDI is not shortest within 1e-9 when 1-coverage<=1e-6.",
 )
